@@ -124,6 +124,12 @@ def run(pid, tier):
         violations += v3
         cov["legs"].update(c3)
         traces2 += tr3
+        # cross-channel races on the shared payment ledger (payments component, ConcPayments.tla)
+        import payments
+        v4, c4, tr4 = payments.conc_component(tier)
+        violations += [v for v in v4 if v["key"].startswith("pay-")]
+        cov["legs"].update(c4)
+        traces2 += tr4
     except ImportError:
         traces2 = 0
 
